@@ -55,7 +55,8 @@ TRUSTED = [
     'situations are marked `unmodelled` there: calls waiting for the command lock when the connection is lost, and a '
     'connection established while the start-up task of the previous one is still running (Face.run() raised during '
     'start-up and the application reconnects before the command in flight has run into its lifetime; on /repo that '
-    'makes the old task register its remaining routes on the new connection as well - observed, not in the stream).  '
+    'makes the old task register its remaining routes on the new connection as well: finding C17-8, candidate fix '
+    'written, exhibited by the stream rc with VERIF_C17_ABORT_DURING_STARTUP=1 and kept out of it otherwise).  '
     'routes_conserved / routes_once_per_connection hold for every state with no start-up task running (any previous '
     'history, any kind of end); the route list is an input of `connect` (what route() has collected); the stream rc '
     '(harness/props/c17_reconnect.py) is oracle-only',
@@ -80,7 +81,8 @@ RULE = ('scenarios on the virtual-time loop with the real NDNApp (v2 with the re
         'main_loop (caught, main_loop() called again) after start-up registration / the face going down when k of the n '
         'start-up commands have been sent (k = 0..n-1), routes declared before the first connection, while start-up '
         'registration is in progress, while a connection is idle and between connections, 0 / 5 / 1500 ms between '
-        'connections - legacy: orderly ends only until finding C17-7 is repaired), 2-7 concurrent calls on every connection so that the command lock is contended each time, '
+        'connections; with VERIF_C17_ABORT_DURING_STARTUP=1 also Face.run() raising when k of n start-up commands have been '
+        'sent, reconnect after 0-1500 ms: finding C17-8, not repaired in /repo), 2-7 concurrent calls on every connection so that the command lock is contended each time, '
         '0-50 ms between connections, connection attempts whose face.open() fails and are retried; plus ControlResponse '
         'values with random status/text/body fields for parse_response; plus a byte-level stream: verb, local/non-local '
         'face, prefix (text prefixes and random typed components, lengths around 253), 0-15 further ControlParameters '
